@@ -5,6 +5,7 @@ package harness
 import (
 	"bytes"
 	"fmt"
+	"io"
 	"strings"
 	"testing"
 
@@ -21,9 +22,10 @@ type c17Rec struct {
 }
 
 type c17Case struct {
-	Mode string   `json:"mode"` // roundtrip, genbank
-	Recs []c17Rec `json:"recs,omitempty"`
-	CRLF bool     `json:"crlf,omitempty"`
+	Mode  string   `json:"mode"` // roundtrip, genbank
+	Recs  []c17Rec `json:"recs,omitempty"`
+	CRLF  bool     `json:"crlf,omitempty"`
+	Deliv int      `json:"deliv,omitempty"` // roundtrip: how the reader hands the bytes over (deliveryNames)
 	// genbank mode
 	Version string `json:"version,omitempty"`
 	Def     string `json:"definition,omitempty"`
@@ -62,10 +64,14 @@ type fastaRead struct {
 	panic *PanicInfo
 }
 
-func readAll(text string) fastaRead {
+func readAll(text string, how ...int) fastaRead {
 	var r fastaRead
 	r.panic = guard(func() {
-		sc := seqio.NewAutoScanner(strings.NewReader(text))
+		var src io.Reader = strings.NewReader(text)
+		if len(how) > 0 && how[0] != 0 {
+			src = deliver([]byte(text), how[0])
+		}
+		sc := seqio.NewAutoScanner(src)
 		var seqs []gts.Sequence
 		var early [][]byte
 		for sc.Scan() {
@@ -151,15 +157,15 @@ func c17Check(c c17Case) *Violation {
 		if c.CRLF {
 			text = crlf(text)
 		}
-		rd := readAll(text)
+		rd := readAll(text, c.Deliv)
 		if rd.panic != nil {
 			return panicViolation("FASTA reader", rd.panic)
 		}
 		if rd.err != "" {
-			return viol("read", "reading back %d records failed: %s", len(c.Recs), rd.err)
+			return viol("read", "reading back %d records (reader: %s) failed: %s", len(c.Recs), deliveryNames[c.Deliv%len(deliveryNames)], rd.err)
 		}
 		if len(rd.descs) != len(c.Recs) {
-			return viol("framing", "wrote %d records, read back %d (crlf=%v)", len(c.Recs), len(rd.descs), c.CRLF)
+			return viol("framing", "wrote %d records, read back %d (crlf=%v, reader: %s)", len(c.Recs), len(rd.descs), c.CRLF, deliveryNames[c.Deliv%len(deliveryNames)])
 		}
 		for i, r := range c.Recs {
 			if rd.descs[i] != r.Desc {
@@ -299,6 +305,9 @@ func c17Gen(t *rapid.T) c17Case {
 	}
 	n := rapid.IntRange(1, 5).Draw(t, "nrec")
 	c := c17Case{Mode: "roundtrip", CRLF: rapid.Bool().Draw(t, "crlf")}
+	if rapid.IntRange(0, 2).Draw(t, "shortreads") == 0 {
+		c.Deliv = rapid.IntRange(1, len(deliveryNames)-1).Draw(t, "deliv")
+	}
 	for i := 0; i < n; i++ {
 		var l int
 		switch rapid.IntRange(0, 4).Draw(t, "lenkind") {
@@ -366,6 +375,25 @@ func TestC17(t *testing.T) {
 		}
 	}
 	eg.done(true)
+	// deliveries: the same streams through readers that hand the bytes over in other portions
+	ed := enumPart(t, c17Prop, st, "deliveries")
+	dl := []int{0, 1, 69, 70, 71, 140, 700, 3900, 4100}
+	if thorough() {
+		for n := 2; n <= 300; n++ {
+			dl = append(dl, n)
+		}
+		dl = append(dl, 4026, 4027, 4028, 8100, 9000)
+	}
+	for _, n := range dl {
+		for how := 1; how < len(deliveryNames); how++ {
+			for _, cr := range []bool{false, true} {
+				if !ed.try(c17Case{Mode: "roundtrip", CRLF: cr, Deliv: how, Recs: []c17Rec{{Desc: "d1 first record", Len: n, Seed: n, Step: 1}, {Desc: "", Len: n % 97, Seed: 1, Step: 1}, {Desc: ">x", Len: n, Seed: 9, Step: 2}, {Desc: "last", Len: 140, Seed: 2, Step: 1}}}) {
+					return
+				}
+			}
+		}
+	}
+	ed.done(true)
 	rapidPart(t, c17Prop, st, "rapid", pick(4000, 60000), c17Gen)
 }
 
